@@ -207,6 +207,12 @@ let dispatch (cmd : string) (t : tree) : tree =
       (match SysRun.q_sys_eval tab ord e0 (r_list r_nat targets) (r_list r_nat ask) with
        | None -> L []
        | Some vals -> L [w_list (w_opt w_q) vals])
+  | "select_rows", [req; rows] ->
+      (* rows: per stored point a list of [] (missing) | [value]; returns [rows handed out, rows the former rule handed out] *)
+      let rrow t = r_list (fun c -> match as_list c with [] -> None | [v] -> Some (r_z v) | _ -> failwith "cell") t in
+      let rows = r_list rrow rows and req = r_list r_nat req in
+      let wrow r = w_list (w_opt w_z) r in
+      L [w_list wrow (Select.training_rows req rows); w_list wrow (Select.training_rows_former req rows)]
   | "sched_gather", [rs; sigma] ->
       (* rs: per task [] (raised) or [value]; the task function returns the precomputed result of its slot *)
       let rs = r_list (fun t -> match as_list t with [] -> None | [v] -> Some (r_z v) | _ -> failwith "result") rs in
